@@ -1,0 +1,299 @@
+//go:build verif
+
+// Contracts for the deductive verification in /verif (govc), topic tlslog: the TLS
+// handshake-log builders (properties C28, C32/C33). Comments only.
+
+package tls
+
+//@ func (*finishedMsg).MakeLog
+//@   requires m != nil
+//@   ensures  result != nil && fresh(result)
+//@   ensures  eq(result.VerifyData, m.verifyData)
+//@   ensures  len(m.verifyData) > 0 ==> sep(result.VerifyData, m.verifyData)
+//@   terminates
+
+// NewSessionTicket as logged: the ticket bytes are complete and Length / LifetimeHint are
+// those of the session state (C28 "session ticket").
+//@ func (*ClientSessionState).MakeLog
+//@   requires m != nil
+//@   ensures  result != nil && fresh(result)
+//@   ensures  eq(result.Value, m.sessionTicket) && result.Length == len(m.sessionTicket)
+//@   ensures  result.LifetimeHint == m.lifetimeHint
+//@   ensures  len(m.sessionTicket) > 0 ==> sep(result.Value, m.sessionTicket)
+//@   terminates
+
+// Key material (C28 "key material"): the logged secrets are the secrets of the handshake
+// state, complete, with their lengths.
+//@ func (*clientHandshakeState).MakeLog
+//@   requires m != nil
+//@   ensures  result != nil && fresh(result) && result.MasterSecret != nil && result.PreMasterSecret != nil
+//@   ensures  eq(result.MasterSecret.Value, m.masterSecret) && result.MasterSecret.Length == len(m.masterSecret)
+//@   ensures  eq(result.PreMasterSecret.Value, m.preMasterSecret) && result.PreMasterSecret.Length == len(m.preMasterSecret)
+//@   terminates
+
+//@ func (*serverHandshakeState).MakeLog
+//@   requires m != nil
+//@   ensures  result != nil && fresh(result) && result.MasterSecret != nil && result.PreMasterSecret != nil
+//@   ensures  eq(result.MasterSecret.Value, m.masterSecret) && result.MasterSecret.Length == len(m.masterSecret)
+//@   ensures  eq(result.PreMasterSecret.Value, m.preMasterSecret) && result.PreMasterSecret.Length == len(m.preMasterSecret)
+//@   terminates
+
+// Server certificates (C28 "server certificates"): leaf = first certificate of the message,
+// complete; the chain has one entry per remaining certificate; nothing is parsed here.
+// NOT stated (govc limitation, see notes L2): element-wise equality of the chain entries
+// (forall k: eq(result.Chain[k].Raw, certificates[k+1])) - the loop stores through a slice
+// header loaded inside the loop, govc then havocs the whole slice and byte heaps at the loop
+// head and the quantified preservation proof times out in every solver. For the same
+// reason the frame is `modifies all` with the message header stated unchanged explicitly.
+//@ func (*certificateMsg).MakeLog
+//@   requires m != nil
+//@   loop 1 invariant 0 <= it && it <= len(chain) && same(m.certificates, old(m.certificates)) && same(chain, m.certificates[1:])
+//@   loop 1 invariant len(sc.Chain) == len(chain) && sc.Chain != nil && fresh(sc.Chain) && sep(sc.Chain, sc)
+//@   loop 1 invariant eq(sc.Certificate.Raw, m.certificates[0]) && fresh(sc.Certificate.Raw) && allocated(sc.Certificate.Raw)
+//@   ensures  result != nil && fresh(result) && result.Validation == nil && result.Certificate.Parsed == nil
+//@   ensures  len(m.certificates) >= 1 ==> eq(result.Certificate.Raw, m.certificates[0])
+//@   ensures  len(m.certificates) == 0 ==> len(result.Certificate.Raw) == 0
+//@   ensures  len(result.Chain) == max(len(m.certificates) - 1, 0) && fresh(result.Chain)
+//@   ensures  forall(k, 0, len(result.Chain), result.Chain[k].Parsed == nil)
+//@   ensures  same(m.certificates, old(m.certificates))
+//@   modifies all
+//@   terminates
+
+//@ func (*certificateMsgTLS13).MakeLog
+//@   requires m != nil
+//@   loop 1 invariant 0 <= it && it <= len(chain) && same(m.certificate.Certificate, old(m.certificate.Certificate)) && same(chain, m.certificate.Certificate[1:])
+//@   loop 1 invariant len(sc.Chain) == len(chain) && sc.Chain != nil && fresh(sc.Chain) && sep(sc.Chain, sc)
+//@   loop 1 invariant eq(sc.Certificate.Raw, m.certificate.Certificate[0]) && fresh(sc.Certificate.Raw) && allocated(sc.Certificate.Raw)
+//@   ensures  result != nil && fresh(result) && result.Validation == nil && result.Certificate.Parsed == nil
+//@   ensures  len(m.certificate.Certificate) >= 1 ==> eq(result.Certificate.Raw, m.certificate.Certificate[0])
+//@   ensures  len(m.certificate.Certificate) == 0 ==> len(result.Certificate.Raw) == 0
+//@   ensures  len(result.Chain) == max(len(m.certificate.Certificate) - 1, 0) && fresh(result.Chain)
+//@   ensures  forall(k, 0, len(result.Chain), result.Chain[k].Parsed == nil)
+//@   ensures  same(m.certificate.Certificate, old(m.certificate.Certificate))
+//@   modifies all
+//@   terminates
+
+// ---------------------------------------------------------------- tls_ka.go
+
+// Names of the signature types (rsa=1, dsa=2 are the RFC 5246 7.4.1.4.1 wire values; the
+// others are zcrypto-internal type codes).
+//@ func signatureTypeToName
+//@   ensures sigType == signatureRSA ==> result == "rsa"
+//@   ensures sigType == signatureDSA ==> result == "dsa"
+//@   ensures sigType == signaturePKCS1v15 ==> result == "pkcs1v15"
+//@   ensures sigType == signatureRSAPSS ==> result == "rsapss"
+//@   ensures sigType == signatureECDSA ==> result == "ecdsa"
+//@   ensures sigType == signatureEd25519 ==> result == "ed25519"
+//@   terminates
+
+// The logged ServerKeyExchange signature (C28 "signature algorithm"): signature bytes,
+// validity, version and - from TLS 1.2 on - the SignatureAndHashAlgorithm pair are those
+// recorded in the key agreement (ka.sh is filled from the wire by verifyParameters).
+//@ func (*signedKeyAgreement).Signature
+//@   requires ka != nil
+//@   ensures  result != nil && fresh(result)
+//@   ensures  same(result.Raw, ka.raw) && result.Valid == ka.valid && result.Version == TLSVersion(ka.version)
+//@   ensures  ka.version >= VersionTLS12 ==> result.SigHashExtension != nil && fresh(result.SigHashExtension) && result.SigHashExtension.Signature == ka.sh.Signature && result.SigHashExtension.Hash == ka.sh.Hash
+//@   ensures  ka.version < VersionTLS12 ==> result.SigHashExtension == nil
+//@   ensures  ka.sigType == signatureRSA ==> result.Type == "rsa"
+//@   ensures  ka.sigType == signatureECDSA ==> result.Type == "ecdsa"
+//@   ensures  ka.sigType == signatureDSA ==> result.Type == "dsa"
+//@   terminates
+
+//@ func (*rsaKeyAgreement).RSAParams
+//@   ensures result != nil && fresh(result) && result.PublicKey == nil
+//@   terminates
+
+// Finite-field DH parameters of the ServerKeyExchange: every group element the key agreement
+// holds is logged as a fresh copy (never an alias of the live secret), absent ones stay nil.
+// The client half is not populated by the server-side logger and vice versa.
+//@ func (*dheKeyAgreement).DHParams
+//@   requires ka != nil
+//@   ensures  result != nil && fresh(result)
+//@   ensures  (result.Prime != nil <==> ka.p != nil) && (result.Generator != nil <==> ka.g != nil) && (result.ServerPublic != nil <==> ka.yServer != nil)
+//@   ensures  fresh(result.Prime) && fresh(result.Generator) && fresh(result.ServerPublic) && fresh(result.ServerPrivate)
+//@   ensures  result.ServerPrivate != nil ==> ka.yServer != nil && ka.yOurs != nil && ka.xOurs != nil
+//@   ensures  result.ClientPublic == nil && result.ClientPrivate == nil && result.SessionKey == nil
+//@   terminates
+
+//@ func (*dheKeyAgreement).ClientDHParams
+//@   requires ka != nil
+//@   ensures  result != nil && fresh(result)
+//@   ensures  (result.Prime != nil <==> ka.p != nil) && (result.Generator != nil <==> ka.g != nil) && (result.ClientPublic != nil <==> ka.yClient != nil)
+//@   ensures  fresh(result.Prime) && fresh(result.Generator) && fresh(result.ClientPublic) && fresh(result.ClientPrivate)
+//@   ensures  result.ClientPrivate != nil ==> ka.yClient != nil && ka.yOurs != nil && ka.xOurs != nil
+//@   ensures  result.ServerPublic == nil && result.ServerPrivate == nil && result.SessionKey == nil
+//@   terminates
+
+// ECDHE parameters. The concrete share is produced by the ecdheParameters implementation
+// (assumed interface contract in /verif/extern/tlslog.contracts, proved for both
+// implementations below). A key agreement whose serverParams / params is still nil has
+// nothing to log; the loggers dereference it, hence the precondition.
+//@ func (*ecdheKeyAgreement).ECDHParams
+//@   requires ka != nil && ka.serverParams != nil
+//@   ensures  result != nil && fresh(result) && result.ServerPublic != nil
+//@   ensures  result.ClientPublic == nil && result.ClientPrivate == nil && result.Curve == nil
+//@   terminates
+
+//@ func (*ecdheKeyAgreement).ClientECDHParams
+//@   requires ka != nil && ka.params != nil
+//@   ensures  result != nil && fresh(result) && result.ClientPublic != nil
+//@   ensures  result.ServerPublic == nil && result.ServerPrivate == nil && result.Curve == nil
+//@   terminates
+
+// key_schedule.go: the two implementations of ecdheParameters.MakeLog.
+//@ func (*nistParameters).MakeLog
+//@   requires p != nil
+//@   ensures  result0 != nil && fresh(result0) && fresh(result1)
+//@   ensures  (result0.X != nil <==> p.x != nil) && (result0.Y != nil <==> p.y != nil) && fresh(result0.X) && fresh(result0.Y)
+//@   ensures  len(p.privateKey) > 0 ==> result1 != nil && eq(result1.Value, p.privateKey) && result1.Length == len(p.privateKey) && fresh(result1.Value)
+//@   ensures  len(p.privateKey) == 0 ==> result1 == nil
+//@   terminates
+
+//@ func (*x25519Parameters).MakeLog
+//@   requires p != nil
+//@   ensures  result0 != nil && fresh(result0) && fresh(result1)
+//@   ensures  (result0.X != nil <==> p.publicKey != nil) && result0.Y == nil && fresh(result0.X)
+//@   ensures  len(p.privateKey) > 0 ==> result1 != nil && eq(result1.Value, p.privateKey) && result1.Length == len(p.privateKey) && fresh(result1.Value)
+//@   ensures  len(p.privateKey) == 0 ==> result1 == nil
+//@   terminates
+
+//@ func (*nistParameters).CurveID
+//@   requires p != nil
+//@   ensures  result == p.curveID
+//@   terminates
+
+//@ func (*x25519Parameters).CurveID
+//@   ensures  result == X25519
+//@   terminates
+
+// ---------------------------------------------------------------- tls_handshake.go: key exchange messages
+
+//@ pred kaDHE(ka) = unboxed(ka, *dheKeyAgreement)
+//@ pred kaECDHE(ka) = unboxed(ka, *ecdheKeyAgreement)
+//@ pred authSigned(a) = unboxed(a, *signedKeyAgreement)
+
+// ServerKeyExchange as logged (C28): Raw is the complete key-exchange body of the message,
+// Digest the complete signed digest; the parameter block matches the kind of key agreement;
+// the signature block is the one of the key agreement's authentication (see Signature).
+// Preconditions (from the code): a typed key agreement is a non-nil pointer, an ECDHE one has
+// its server share (both hold after a successful processServerKeyExchange /
+// generateServerKeyExchange, the only callers).
+//@ func (*serverKeyExchangeMsg).MakeLog
+//@   requires m != nil
+//@   requires typeis(ka, *dheKeyAgreement) ==> kaDHE(ka) != nil && (typeis(kaDHE(ka).auth, *signedKeyAgreement) ==> authSigned(kaDHE(ka).auth) != nil)
+//@   requires typeis(ka, *ecdheKeyAgreement) ==> kaECDHE(ka) != nil && kaECDHE(ka).serverParams != nil && (typeis(kaECDHE(ka).auth, *signedKeyAgreement) ==> authSigned(kaECDHE(ka).auth) != nil)
+//@   ensures  result != nil && fresh(result)
+//@   ensures  eq(result.Raw, m.key) && eq(result.Digest, m.digest)
+//@   ensures  typeis(ka, *dheKeyAgreement) ==> result.DHParams != nil && result.ECDHParams == nil
+//@   ensures  typeis(ka, *ecdheKeyAgreement) ==> result.ECDHParams != nil && result.DHParams == nil && result.ECDHParams.ServerPublic != nil
+//@   ensures  !typeis(ka, *dheKeyAgreement) && !typeis(ka, *ecdheKeyAgreement) ==> result.DHParams == nil && result.ECDHParams == nil && result.Signature == nil && result.SignatureError == ""
+//@   ensures  typeis(ka, *dheKeyAgreement) && typeis(kaDHE(ka).auth, *signedKeyAgreement) ==> result.Signature != nil && same(result.Signature.Raw, authSigned(kaDHE(ka).auth).raw) && result.Signature.Valid == authSigned(kaDHE(ka).auth).valid
+//@   ensures  typeis(ka, *ecdheKeyAgreement) && typeis(kaECDHE(ka).auth, *signedKeyAgreement) ==> result.Signature != nil && same(result.Signature.Raw, authSigned(kaECDHE(ka).auth).raw) && result.Signature.Valid == authSigned(kaECDHE(ka).auth).valid
+//@   ensures  typeis(ka, *ecdheKeyAgreement) && typeis(kaECDHE(ka).auth, *signedKeyAgreement) && authSigned(kaECDHE(ka).auth).version >= VersionTLS12 ==> result.Signature.SigHashExtension != nil && result.Signature.SigHashExtension.Signature == authSigned(kaECDHE(ka).auth).sh.Signature && result.Signature.SigHashExtension.Hash == authSigned(kaECDHE(ka).auth).sh.Hash
+//@   ensures  typeis(ka, *dheKeyAgreement) && typeis(kaDHE(ka).auth, *signedKeyAgreement) && authSigned(kaDHE(ka).auth).version >= VersionTLS12 ==> result.Signature.SigHashExtension != nil && result.Signature.SigHashExtension.Signature == authSigned(kaDHE(ka).auth).sh.Signature && result.Signature.SigHashExtension.Hash == authSigned(kaDHE(ka).auth).sh.Hash
+//@   terminates
+
+// ClientKeyExchange as logged (C28): Raw is the complete message; for RSA the encrypted
+// pre-master secret is the ciphertext after its 2-byte length prefix, with that length.
+// Precondition (from the code): with an RSA key agreement the ciphertext carries the 2-byte
+// prefix - MakeLog panics (makeslice) on a shorter one, see notes D5.
+//@ func (*clientKeyExchangeMsg).MakeLog
+//@   requires m != nil
+//@   requires typeis(ka, *rsaKeyAgreement) ==> len(m.ciphertext) >= 2
+//@   requires typeis(ka, *dheKeyAgreement) ==> kaDHE(ka) != nil
+//@   requires typeis(ka, *ecdheKeyAgreement) ==> kaECDHE(ka) != nil && kaECDHE(ka).params != nil
+//@   ensures  result != nil && fresh(result)
+//@   ensures  eq(result.Raw, m.raw)
+//@   ensures  typeis(ka, *rsaKeyAgreement) ==> result.RSAParams != nil && eq(result.RSAParams.EncryptedPMS, m.ciphertext[2:]) && result.DHParams == nil && result.ECDHParams == nil
+//@   ensures  typeis(ka, *rsaKeyAgreement) && len(m.ciphertext) - 2 <= 0xffff ==> int(result.RSAParams.Length) == len(m.ciphertext) - 2
+//@   ensures  typeis(ka, *dheKeyAgreement) ==> result.DHParams != nil && result.RSAParams == nil && result.ECDHParams == nil
+//@   ensures  typeis(ka, *ecdheKeyAgreement) ==> result.ECDHParams != nil && result.ECDHParams.ClientPublic != nil && result.RSAParams == nil && result.DHParams == nil
+//@   ensures  !typeis(ka, *rsaKeyAgreement) && !typeis(ka, *dheKeyAgreement) && !typeis(ka, *ecdheKeyAgreement) ==> result.RSAParams == nil && result.DHParams == nil && result.ECDHParams == nil
+//@   terminates
+
+// addParsed attaches the parsed certificates to the raw ones logged by MakeLog: leaf to
+// Certificate, the rest to Chain in order, and records the validation result; raw bytes are
+// untouched. Documented assumption: the chain slice has already been allocated (by MakeLog
+// on the same message), i.e. it has one entry per non-leaf certificate - with a shorter
+// chain the code indexes out of range (notes D6).
+//@ func (*Certificates).addParsed
+//@   requires c != nil && sep(c.Chain, c) && sep(certs, c) && sep(certs, c.Chain)
+//@   requires len(certs) >= 2 ==> len(c.Chain) >= len(certs) - 1
+//@   loop 1 invariant 0 <= it && it <= len(chain) && same(chain, certs[1:]) && same(c.Chain, old(c.Chain)) && c.Certificate.Parsed == certs[0]
+//@   loop 1 invariant forall(k, 0, it, c.Chain[k].Parsed == chain[k])
+//@   loop 1 invariant forall(k, 0, len(certs), certs[k] == old(certs[k]))
+//@   ensures  len(certs) >= 1 ==> c.Certificate.Parsed == certs[0]
+//@   ensures  len(certs) == 0 ==> c.Certificate.Parsed == old(c.Certificate.Parsed)
+//@   ensures  len(certs) >= 2 ==> forall(k, 0, len(certs) - 1, c.Chain[k].Parsed == certs[1:][k])
+//@   ensures  c.Validation == validation
+//@   ensures  same(c.Certificate.Raw, old(c.Certificate.Raw)) && same(c.Chain, old(c.Chain)) && forall(k, 0, len(c.Chain), same(c.Chain[k].Raw, old(c.Chain[k].Raw)))
+//@   ensures  forall(k, 0, len(certs), certs[k] == old(certs[k]))
+//@   modifies all
+//@   terminates
+
+// ---------------------------------------------------------------- tls_handshake.go: ClientHello
+
+// One predicate per logged ClientHello field (C28 "ClientHello ... equals the corresponding
+// field of the messages sent"): l is the log, m the message.
+//@ pred chVers(l, m) = l.Version == TLSVersion(m.vers)
+//@ pred chRandom(l, m) = eq(l.Random, m.random) && eq(l.SessionID, m.sessionId)
+//@ pred chSuites(l, m) = len(l.CipherSuites) == len(m.cipherSuites) && forall(k, 0, len(m.cipherSuites), l.CipherSuites[k] == CipherSuiteID(m.cipherSuites[k]))
+//@ pred chComp(l, m) = len(l.CompressionMethods) == len(m.compressionMethods) && forall(k, 0, len(m.compressionMethods), l.CompressionMethods[k] == CompressionMethod(m.compressionMethods[k]))
+//@ pred chFlags(l, m) = l.OcspStapling == m.ocspStapling && l.TicketSupported == m.ticketSupported && l.SecureRenegotiation == (m.secureRenegotiationSupported && len(m.secureRenegotiation) > 0) && l.Scts == m.scts && l.ServerName == m.serverName
+//@ pred chCurves(l, m) = len(l.SupportedCurves) == len(m.supportedCurves) && forall(k, 0, len(m.supportedCurves), l.SupportedCurves[k] == m.supportedCurves[k])
+//@ pred chPoints(l, m) = len(l.SupportedPoints) == len(m.supportedPoints) && forall(k, 0, len(m.supportedPoints), l.SupportedPoints[k] == PointFormat(m.supportedPoints[k]))
+//@ pred chVersions(l, m) = len(l.SupportedVersions) == len(m.supportedVersions) && forall(k, 0, len(m.supportedVersions), l.SupportedVersions[k] == TLSVersion(m.supportedVersions[k]))
+//@ pred chAlpn(l, m) = len(l.AlpnProtocols) == len(m.alpnProtocols) && forall(k, 0, len(m.alpnProtocols), l.AlpnProtocols[k] == m.alpnProtocols[k])
+// what the code really logs for a non-empty ticket: the length, but no bytes
+//@ pred chTicketActual(l, m) = (len(m.sessionTicket) > 0 ==> l.SessionTicket != nil && fresh(l.SessionTicket) && len(l.SessionTicket.Value) == 0 && l.SessionTicket.Length == len(m.sessionTicket) && l.SessionTicket.LifetimeHint == 0) && (len(m.sessionTicket) == 0 ==> l.SessionTicket == nil)
+// everything the log points to was allocated by this call (no aliasing with the message)
+//@ pred chFresh(l) = fresh(l.Random) && fresh(l.SessionID) && fresh(l.CipherSuites) && fresh(l.CompressionMethods) && fresh(l.SupportedCurves) && fresh(l.SupportedPoints)
+
+// Entry fact (a truism of Go, but not built into govc's memory model): the arrays the message
+// points to existed before the call, so nothing allocated by MakeLog can coincide with them.
+//@ pred chMsgAllocated(m) = allocated(m.random) && allocated(m.sessionId) && allocated(m.cipherSuites) && allocated(m.compressionMethods) && allocated(m.supportedCurves) && allocated(m.supportedPoints) && allocated(m.supportedVersions) && allocated(m.sessionTicket) && allocated(m.supportedSignatureAlgorithms) && allocated(m.alpnProtocols) && allocated(m.unknownExtensions)
+
+//@ func (*clientHelloMsg).MakeLog
+//@   requires m != nil && chMsgAllocated(m)
+//@   loop 1 invariant chVers(ch, m) && forall(k, 0, it, ch.CipherSuites[k] == CipherSuiteID(m.cipherSuites[k]))
+//@   loop 2 invariant chRandom(ch, m) && forall(k, 0, it, ch.CompressionMethods[k] == CompressionMethod(m.compressionMethods[k]))
+//@   loop 3 invariant chRandom(ch, m) && chComp(ch, m) && forall(k, 0, it, ch.SupportedPoints[k] == PointFormat(m.supportedPoints[k]))
+//@   loop 4 invariant chVers(ch, m) && chSuites(ch, m) && chCurves(ch, m)
+//@   loop 4 invariant len(ch.SupportedVersions) == it && fresh(ch.SupportedVersions) && ch.SupportedVersions != nil && sep(ch.SupportedVersions, ch.CipherSuites) && sep(ch.SupportedVersions, ch.SupportedCurves) && sep(ch.SupportedVersions, ch)
+//@   loop 4 invariant forall(k, 0, it, ch.SupportedVersions[k] == TLSVersion(m.supportedVersions[k]))
+//@   loop 5 invariant 0 <= it && it <= len(m.supportedSignatureAlgorithms)
+//@   loop 5 invariant chRandom(ch, m) && chComp(ch, m) && chPoints(ch, m)
+//@   loop 5 invariant ch.SignatureAndHashes != nil && fresh(ch.SignatureAndHashes) && len(ch.SignatureAndHashes) <= it && sep(ch.SignatureAndHashes, ch) && sep(ch.SignatureAndHashes, ch.Random) && sep(ch.SignatureAndHashes, ch.SessionID) && sep(ch.SignatureAndHashes, ch.CompressionMethods) && sep(ch.SignatureAndHashes, ch.SupportedPoints)
+//@   loop 5 decreases len(m.supportedSignatureAlgorithms) - it
+//@   loop 6 invariant same(m.unknownExtensions, old(m.unknownExtensions)) && same(m.supportedSignatureAlgorithms, old(m.supportedSignatureAlgorithms))
+//@   loop 6 invariant chVers(ch, m) && chRandom(ch, m) && chSuites(ch, m) && chComp(ch, m) && chFlags(ch, m) && chCurves(ch, m) && chPoints(ch, m) && chTicketActual(ch, m) && chAlpn(ch, m)
+//@   loop 6 invariant (len(m.supportedVersions) > 0 ==> chVersions(ch, m)) && (len(m.supportedVersions) == 0 ==> len(ch.SupportedVersions) == 0)
+//@   loop 6 invariant ch.SignatureAndHashes != nil && len(ch.SignatureAndHashes) <= len(m.supportedSignatureAlgorithms)
+//@   loop 6 invariant len(ch.UnknownExtensions) == len(m.unknownExtensions) && ch.UnknownExtensions != nil && fresh(ch.UnknownExtensions) && sep(ch.UnknownExtensions, ch)
+//@   ensures  result != nil && fresh(result)
+//@   ensures  chVers(result, m) && chRandom(result, m) && chSuites(result, m) && chComp(result, m) && chFlags(result, m)
+//@   ensures  chCurves(result, m) && chPoints(result, m) && chAlpn(result, m)
+//@   ensures  (len(m.supportedVersions) > 0 ==> chVersions(result, m)) && (len(m.supportedVersions) == 0 ==> len(result.SupportedVersions) == 0)
+//@   ensures  result.SignatureAndHashes != nil && len(result.SignatureAndHashes) <= len(m.supportedSignatureAlgorithms)
+//@   ensures  len(result.UnknownExtensions) == len(m.unknownExtensions)
+//@   ensures  [actual_ticket_empty] chTicketActual(result, m)
+//@   ensures  [defect_ticket] len(m.sessionTicket) > 0 ==> result.SessionTicket != nil && eq(result.SessionTicket.Value, m.sessionTicket) && result.SessionTicket.Length == len(m.sessionTicket)
+//@   ensures  [defect_ems] result.ExtendedMasterSecret == m.extendedMasterSecret
+//@   ensures  [defect_sctenabled] result.SctEnabled == m.sctEnabled
+//@   ensures  [defect_extrandom] m.extendedRandomEnabled ==> eq(result.ExtendedRandom, m.extendedRandom)
+//@   modifies all
+//@   terminates
+
+// ---------------------------------------------------------------- tls_handshake.go: ServerHello
+
+// handshake_messages.go: the extension identifiers of the raw ServerHello, in wire order.
+// Stated: no panic on any m.raw, a failed parse yields (nil, false), nothing is written.
+//@ func (*serverHelloMsg).extractExtensions
+//@   requires m != nil && allocated(m.raw)
+//@   loop 1 invariant fresh(extensionIdentifiers) && extensionIdentifiers != nil && samebase(extensions, m.raw)
+//@   loop 1 decreases len(extensions)
+//@   ensures  !result1 ==> result0 == nil
+//@   ensures  result1 ==> result0 != nil && fresh(result0)
+//@   modifies nothing
+//@   terminates
